@@ -21,38 +21,39 @@ const (
 	StatusUnsupported        // construct the simulator cannot model (infrastructure, exit 2)
 )
 
+//go:norace
 func (s Status) String() string {
 	return [...]string{"ok", "deadlock", "panic", "steplimit", "misuse", "diverged", "unsupported"}[s]
 }
 
 // Config of one simulated execution.
 type Config struct {
-	Seed      uint64 // schedule stream seed
-	Strategy  string // uniform | pct | seqbg | fifo
-	PCTDepth  int    // number of priority change points (pct)
-	PCTSteps  int    // estimated run length for pct change points
-	TimerProb float64
-	MaxSteps  uint64
-	Replay    []int32 // when non-nil: consume these choices instead of the PRNG
-	KeepLog   int     // keep the last N events for failure reports (0 = none)
+	Seed       uint64 // schedule stream seed
+	Strategy   string // uniform | pct | seqbg | fifo
+	PCTDepth   int    // number of priority change points (pct)
+	PCTSteps   int    // estimated run length for pct change points
+	TimerProb  float64
+	MaxSteps   uint64
+	Replay     []int32 // when non-nil: consume these choices instead of the PRNG
+	KeepLog    int     // keep the last N events for failure reports (0 = none)
 	SwitchBias float64 // uniform: probability to keep running the current goroutine if runnable
 }
 
 // Result of one simulated execution.
 type Result struct {
-	Status    Status
-	Detail    string   // human readable description of deadlock / panic / misuse
-	Sites     []string // function names involved (blocked sites for deadlock, panic site)
-	Steps     uint64
-	Switches  uint64
+	Status     Status
+	Detail     string   // human readable description of deadlock / panic / misuse
+	Sites      []string // function names involved (blocked sites for deadlock, panic site)
+	Steps      uint64
+	Switches   uint64
 	TimerFires uint64
-	SimTimeNs int64
+	SimTimeNs  int64
 	Goroutines int
-	Leaked    int      // goroutines still blocked when the main goroutine and all runnable work finished
-	TraceHash uint64   // hash over (chosen goroutine, site) of every step
-	SwitchHash uint64  // hash over context switches only
-	Choices   []int32
-	Log       []string
+	Leaked     int    // goroutines still blocked when the main goroutine and all runnable work finished
+	TraceHash  uint64 // hash over (chosen goroutine, site) of every step
+	SwitchHash uint64 // hash over context switches only
+	Choices    []int32
+	Log        []string
 }
 
 type waiter interface {
@@ -81,6 +82,7 @@ type G struct {
 	steps   uint64
 }
 
+//go:norace
 func (g *G) ID() int { return g.id }
 
 type timer struct {
@@ -92,32 +94,33 @@ type timer struct {
 
 // Sched is one simulated world.
 type Sched struct {
-	cfg      Config
-	rng      *Rand
-	gs       []*G
-	cur      *G
-	step     uint64
-	switches uint64
-	tfires   uint64
-	now      int64
-	timers   []*timer // kept sorted by (at, seq); small
-	tseq     uint64
-	closed   map[uintptr]any // closed channels, kept alive so that their address is never reused
-	res      Result
-	finished bool
-	doneCh   chan struct{}
-	trace    uint64
-	swtrace  uint64
-	replayAt int
-	log      []string
-	logPos   int
-	pctChange map[uint64]bool
-	lowPrio  int64
-	defaultGroup int
+	cfg            Config
+	rng            *Rand
+	gs             []*G
+	cur            *G
+	step           uint64
+	switches       uint64
+	tfires         uint64
+	now            int64
+	timers         []*timer // kept sorted by (at, seq); small
+	tseq           uint64
+	closed         map[uintptr]any // closed channels, kept alive so that their address is never reused
+	res            Result
+	finished       bool
+	doneCh         chan struct{}
+	trace          uint64
+	swtrace        uint64
+	replayAt       int
+	log            []string
+	logPos         int
+	pctChange      map[uint64]bool
+	lowPrio        int64
+	defaultGroup   int
 	quiesceWaiters int
-	abort    bool
-	orng     *Rand // order stream: select case order, map iteration order (used in replay too)
-	repolledOnce map[int]bool
+	abort          bool
+	orng           *Rand // order stream: select case order, map iteration order (used in replay too)
+	idleFires      int   // consecutive idle timer firings without any foreground step
+	repolledOnce   map[int]bool
 }
 
 // cur is the active world; nil means "not simulating": every shim passes straight through to
@@ -132,6 +135,8 @@ func Current() *Sched { return world }
 
 // Run executes main as goroutine 0 of a fresh world and returns when every managed goroutine
 // has finished or the run ended abnormally.
+//
+//go:norace
 func Run(cfg Config, main func()) Result {
 	if world != nil {
 		panic("simrt: nested Run")
@@ -143,12 +148,12 @@ func Run(cfg Config, main func()) Result {
 		cfg.Strategy = "uniform"
 	}
 	s := &Sched{
-		cfg:    cfg,
-		rng:    NewRand(cfg.Seed).Derive("sched"),
-		orng:   NewRand(cfg.Seed).Derive("order"),
-		closed: map[uintptr]any{},
-		doneCh: make(chan struct{}),
-		trace:  1469598103934665603,
+		cfg:     cfg,
+		rng:     NewRand(cfg.Seed).Derive("sched"),
+		orng:    NewRand(cfg.Seed).Derive("order"),
+		closed:  map[uintptr]any{},
+		doneCh:  make(chan struct{}),
+		trace:   1469598103934665603,
 		swtrace: 1469598103934665603,
 	}
 	if cfg.KeepLog > 0 {
@@ -207,6 +212,7 @@ func (s *Sched) newG(name string, fn func(), parent *G) *G {
 	return g
 }
 
+//go:norace
 func (s *Sched) startReal(g *G) {
 	go func() {
 		g.hand.park()
@@ -216,6 +222,8 @@ func (s *Sched) startReal(g *G) {
 }
 
 // exitG runs as the deferred epilogue of every managed goroutine.
+//
+//go:norace
 func (s *Sched) exitG(g *G) {
 	if r := recover(); r != nil {
 		if _, ok := r.(abortRun); !ok {
@@ -234,6 +242,8 @@ func (s *Sched) exitG(g *G) {
 
 // Stop ends the run at once with status OK (the harness has reached its own verdict and does
 // not want to wind the world down). The calling goroutine never continues.
+//
+//go:norace
 func Stop() {
 	s := world
 	if s == nil {
@@ -266,6 +276,8 @@ func (s *Sched) fail(st Status, detail string, sites []string) {
 }
 
 // Fail ends the run from inside a shim (misuse detected before the Go runtime would throw).
+//
+//go:norace
 func Fail(st Status, detail string) {
 	s := world
 	if s == nil {
@@ -312,8 +324,16 @@ func (s *Sched) pick() *G {
 		}
 		run := s.runnable()
 		if len(run) == 0 {
+			if len(s.timers) > 0 && s.starved() {
+				s.fail(StatusDeadlock, "no foreground goroutine can ever run again (only periodic timers keep the world alive): "+s.describeBlocked(), s.blockedSites())
+				return nil
+			}
 			if s.fireNextTimer() {
+				s.idleFires++
 				s.record(-1, 0)
+				if s.cfg.Replay != nil && s.replayAt < len(s.cfg.Replay) {
+					s.replayAt++ // the forced firing was recorded as a choice too
+				}
 				continue
 			}
 			if s.repoll() {
@@ -343,6 +363,9 @@ func (s *Sched) pick() *G {
 			}
 			s.record(-1, 0)
 			continue
+		}
+		if choice.group == 0 {
+			s.idleFires = 0
 		}
 		s.record(int32(choice.id), choice.site)
 		return choice
@@ -481,6 +504,32 @@ func (s *Sched) chooseFIFO(run []*G) *G {
 	return run[0]
 }
 
+// starved: periodic timers (the GC timer loop re-arms itself for ever) would hide a deadlock
+// among the other goroutines from the "nothing runnable and no timer" rule. If, for many
+// consecutive idle timer firings, no foreground goroutine took a single step and every
+// unfinished foreground goroutine is parked on a lock-like primitive (never on a timer, a
+// channel or a quiescence wait), nothing a timer can do will ever wake them.
+//
+//go:norace
+func (s *Sched) starved() bool {
+	if s.idleFires < 400 {
+		return false
+	}
+	any := false
+	for _, g := range s.gs {
+		if g.done || !g.started || g.group != 0 {
+			continue
+		}
+		any = true
+		switch g.w.(type) {
+		case *Mutex, rwRead, rwWrite, *condTicket, *WaitGroup, *Once:
+		default:
+			return false
+		}
+	}
+	return any
+}
+
 // yield is the decision point used by every shim: park the calling goroutine (optionally
 // blocked on w) and let the scheduler decide who continues.
 //
@@ -517,6 +566,8 @@ func Yield(tag string) {
 }
 
 // Go starts fn as a managed goroutine (rewritten `go` statements call this).
+//
+//go:norace
 func Go(fn func()) {
 	s := world
 	if s == nil {
@@ -532,6 +583,8 @@ func Go(fn func()) {
 }
 
 // GoNamed is Go with an explicit name and group (harness clients).
+//
+//go:norace
 func GoNamed(name string, group int, fn func()) *G {
 	s := world
 	if s == nil {
@@ -675,6 +728,7 @@ type windowWaiter struct{ until uint64 }
 
 //go:norace
 func (w *windowWaiter) blocked(s *Sched) bool { return s.step < w.until }
+
 //go:norace
 func (w *windowWaiter) meta() bool { return true }
 
@@ -705,16 +759,26 @@ func (s *Sched) describeBlocked() string {
 
 //go:norace
 func (s *Sched) blockedSites() []string {
-	var out []string
+	// the signature of a deadlock: the sites of the system's goroutines that wait for a
+	// lock-like primitive; goroutines idling in a select (pool workers, timer loops) and harness
+	// goroutines are described in the detail only
+	var out, all []string
 	for _, g := range s.gs {
 		if g.done {
 			continue
 		}
 		fn := shortFunc(funcName(g.site))
-		if strings.Contains(fn, "internal/verif/") {
-			fn = "harness"
+		if strings.Contains(fn, "internal/verif/") && !strings.Contains(fn, "internal/verif/containers/") {
+			continue
 		}
-		out = append(out, g.siteTag+"@"+fn)
+		all = append(all, g.siteTag+"@"+fn)
+		switch g.w.(type) {
+		case *Mutex, rwRead, rwWrite, *condTicket, *WaitGroup, *Once:
+			out = append(out, g.siteTag+"@"+fn)
+		}
+	}
+	if len(out) == 0 {
+		out = all
 	}
 	sort.Strings(out)
 	return out
@@ -737,6 +801,8 @@ func funcName(pc uintptr) string {
 
 // shortFunc strips the module prefix and the file:line part: signatures must survive
 // unrelated edits.
+//
+//go:norace
 func shortFunc(fn string) string {
 	if i := strings.Index(fn, "("); i >= 0 && strings.HasSuffix(fn, ")") {
 		// keep method receivers "(*T).M": cut only the trailing (file:line)
@@ -748,6 +814,7 @@ func shortFunc(fn string) string {
 	return fn
 }
 
+//go:norace
 func callerFunc(skip int) string {
 	var pcs [1]uintptr
 	if runtime.Callers(skip+1, pcs[:]) == 0 {
@@ -756,6 +823,7 @@ func callerFunc(skip int) string {
 	return shortFunc(funcName(pcs[0]))
 }
 
+//go:norace
 func panicSites(stack string) []string {
 	// first fs_db frame that is not in internal/verif
 	lines := strings.Split(stack, "\n")
@@ -770,6 +838,7 @@ func panicSites(stack string) []string {
 	return nil
 }
 
+//go:norace
 func trimStack(st string) string {
 	lines := strings.Split(st, "\n")
 	if len(lines) > 40 {
@@ -790,6 +859,7 @@ func Probe(name string) { probes[name]++ }
 //go:norace
 func ProbeAdd(name string, n uint64) { probes[name] += n }
 
+//go:norace
 func Probes() map[string]uint64 {
 	out := make(map[string]uint64, len(probes))
 	for k, v := range probes {
@@ -798,4 +868,5 @@ func Probes() map[string]uint64 {
 	return out
 }
 
+//go:norace
 func ResetProbes() { probes = map[string]uint64{} }
